@@ -70,6 +70,8 @@ type PathState struct {
 	pbArrays  map[*Array]*pbToken
 	tsTokens  map[*Term]Value
 	timeParts map[*Term]*tparts
+	sqlFiles  map[string]*sqlDB
+	uuidCtr   int
 }
 
 // Results aggregates over all paths of one harness run (shared by workers).
@@ -577,7 +579,7 @@ type pathStats struct {
 
 // runPath executes the harness once along prefix.
 func (in *Interp) runPath(prefix []Decision) {
-	in.path = &PathState{prefix: prefix, known: map[*Term]bool{}, started: time.Now(), pbArrays: map[*Array]*pbToken{}, tsTokens: map[*Term]Value{}, timeParts: map[*Term]*tparts{}}
+	in.path = &PathState{prefix: prefix, known: map[*Term]bool{}, started: time.Now(), pbArrays: map[*Array]*pbToken{}, tsTokens: map[*Term]Value{}, timeParts: map[*Term]*tparts{}, sqlFiles: map[string]*sqlDB{}}
 	in.spec = nil
 	in.lastNow = nil
 	in.stats = pathStats{}
